@@ -8,6 +8,31 @@ TB = ("Trusted: Lean 4.33 kernel; axioms propext, Classical.choice, Quot.sound (
 
 # id -> (category, technique, text, note, design_ref)
 CHECKS = {
+    "C03": ("proof", "Lean 4 proofs about the thunk codec (BitVec 64) and the link/first-call/generation state machine (public address stable, progress, code published once) + byte-level, history, register-contract and whole-program correspondence across interfaces",
+            "PROVED for all addresses and every history of load/link/set-interface/first-call/generation events: redirecting a thunk makes it decode to the new target in both encodings (short/long boundary exact), "
+            "a function's public address is its first thunk and never changes, lazy and lazy-bb first calls make progress and publish machine code once, the thunk always targets code of the kind the state machine says. "
+            "Correspondence: real _MIR_get_thunk/_MIR_redirect_thunk bytes and execution at boundary displacements; random API histories replayed by the Lean state machine; wrappers' register contract with a clobbering hook; "
+            "multi-module programs (recursion across modules, indirect calls through ref data, callbacks re-entering MIR, 17 arguments, permuted first-call orders) under interp / interp C interface / eager / lazy / lazy-bb "
+            "and mixed per-module interfaces; the repository's C tests under -ei/-eg/-el/-eb.",
+            TB + " bv_decide axioms only on named codec bridge lemmas if any are reported by the audit. Machine code of wrappers is observed, not modelled; one listed finding (bb wrapper does not save xmm8-15).", "4 C03"),
+    "C04": ("proof", "Lean 4 proofs of the simplifier's rewrite rules over a small-step MIR core semantics (tables regenerated from mir.c) + instruction-by-instruction correspondence of the simplified text and whole-program differential runs under three inlining thresholds",
+            "PROVED for all operand values / all states of the core semantics: memory-operand lowering, algebraic shortcuts (the unsound MULO row refuted), constant bt/bf, branch reversal, jump-to-next and branch-over-jump removal, "
+            "alloca consolidation layout, ret/arg extension, injectivity of the inliner's renaming, soundness of inlining for the modelled call shape (inline_sound_partial: no variable-size alloca, no block arguments). "
+            "Correspondence: MIR_output_item after MIR_link(NULL interface) = the Lean simplifier's text for small functions over all operand shapes; generated programs linked by three builds (default thresholds / never / always inline) "
+            "and run by MIR_interp and MIR_gen agree with each other, with the Lean core semantics on the program as written and on the model-simplified program.",
+            TB + " Partial: inlining with dynamic allocas/block arguments is decided by the differential runs only; seven listed findings.", "4 C04"),
+    "C07": ("proof", "Lean 4 proofs that c2mir's conversion, promotion, opcode-selection and constant-folding tables (regenerated from c2mir.c) agree with C11 and with the documented MIR results + differential execution of generated UB-free C programs and the repository's C tests against gcc",
+            "PROVED for all values: integer promotions and usual arithmetic conversions = C11 6.3.1 (one listed deviation visible only through _Generic), type representation, opcode and compare-branch selection per type pair, "
+            "compile-time folding = the run-time result of the selected instruction, cast_value = C conversion (except _Bool: listed finding), bit-field extract/insert round trip, small block move. "
+            "Correspondence: typed random C programs (UB-free by construction) and c-tests/ run as c2m -ei | -eg -O0..-O3 | -el | -eb and as gcc -O0/-O2 executables; stdout and exit status compared; "
+            "expression values also against the generator's evaluator and the Lean evaluator.",
+            TB + " gcc 12 is the reference compiler. Partial: the translator beyond the modelled tables (statements, initialisers, calls, aggregates) is decided by the differential runs only.", "4 C07"),
+    "C09": ("proof", "Lean 4 model of the C11 #if evaluator and macro expander with theorems (evaluator = C11 intmax/uintmax semantics, expander facts, stringify/destringify) + three-way differential c2mir / gcc -E / Lean on generated inputs",
+            "PROVED for all constant expressions over the modelled grammar: the #if evaluator model computes the C11 value and signedness (intmax_t/uintmax_t, usual arithmetic conversions, unevaluated operands); "
+            "expander facts (no re-expansion of a macro being expanded, argument pre-expansion except next to # and ##, termination with explicit fuel bound), destringify (stringify s) = s. "
+            "Correspondence: the Lean expander/evaluator is the specification, gcc -E -P is an independent reference for it, c2mir's preprocessor is driven in-process and through c2m -E on generated macro sets, "
+            "invocations, #if expressions and include/conditional structures; a case where spec = gcc != c2m is a violation.",
+            TB + " gcc 12 cpp validates the specification. Partial: pragmas, __COUNTER__-style extensions and diagnostics wording are out of scope; listed findings are the #if typing and pasting/stringifying defects.", "4 C09"),
     "C11": ("proof", "Lean 4 proof of read(write ms) = ms for a token-by-token model of the binary writer/reader, parametric in reader facts regenerated from mir.c + byte-exact correspondence",
             "PROVED for every module list satisfying an explicit decidable WF predicate over the whole vocabulary (all item kinds, all operand kinds and memory shapes, fixed and variable operand counts, data of every type): "
             "readModules (writeModules ms) = ok ms; the format is injective (write_deterministic) and uniquely decodable; int/uint/float/long double tokens and 1-4 byte string indexes round-trip for all values; "
